@@ -22,7 +22,7 @@ def run(ctx):
     quick = ctx.quick()
     ctx.rule = ("cases: parses of arbitrary / mutated / truncated inputs, and parse and build runs with a stream fault at operation k for every k up to the "
                 "number of operations of the fault-free run and every fault mode; non-trivial = the input was rejected, or a fault was injected at a reachable k")
-    nprog = 450 if quick else 6000
+    nprog = 340 if quick else 6000
     nt = 0
     with campaign.Campaign(ctx, "c06", strict=True, shard_size=1500) as camp:
         for i in range(nprog):
